@@ -11,6 +11,11 @@ FUNCS = ["problog.clausedb.ClauseIndex.{append,find,_add}", "problog.util.Ordere
 PREAMBLE = '''
 from problog.clausedb import ClauseIndex
 from problog.logic import Term, Constant
+try:
+    from crosshair.tracers import NoTracing
+except ImportError:       # concrete replay outside CrossHair
+    import contextlib
+    NoTracing = contextlib.nullcontext
 
 
 class Node(object):
@@ -104,34 +109,45 @@ def variant_ok(shapes1, ids1, shapes2, ids2):
     A, B = Term('a'), Term('b')
     v1 = [V(i) for i in ids1]
     v2 = [V(i) for i in ids2]
-    g1 = ('p', [mk_arg(sh, v1, A, B) for sh in shapes1])
-    g2 = ('p', [mk_arg(sh, v2, A, B) for sh in shapes2])
-    same = canon(g1[1]) == canon(g2[1])
-    c = DefineCache({})
-    c[g1] = {}
-    if (g2 in c) != same:
-        return False
-    c2 = DefineCache({})
-    c2.activate(g1, 'node')
-    if (c2.getEvalNode(g2) is not None) != same:
-        return False
+    with NoTracing():          # the variable identities are decided: concrete from here on
+        g1 = ('p', [mk_arg(sh, v1, A, B) for sh in shapes1])
+        g2 = ('p', [mk_arg(sh, v2, A, B) for sh in shapes2])
+        same = canon(g1[1]) == canon(g2[1])
+        c = DefineCache({})
+        c[g1] = {}
+        if (g2 in c) != same:
+            return False
+        c2 = DefineCache({})
+        c2.activate(g1, 'node')
+        if (c2.getEvalNode(g2) is not None) != same:
+            return False
     return True
 
 
 def find_ok(kinds, arity, calls):
     A, B = Term('a'), Term('b')     # fresh per path: Term caches its hash
-    ci, clauses = build(kinds, arity, A, B)
-    for call_k in calls:
-        call = tuple(K(k, None, A, B) for k in call_k)
-        real = list(ci.find([c if c is not None else -5 for c in call]))
-        if real != expected(clauses, call):
-            return False
+    # the selectors are decided here; everything below is concrete and runs untraced
+    ckinds = [tuple(K(k, None, A, B) for k in ks) for ks in kinds]
+    ccalls = [tuple(K(k, None, A, B) for k in call_k) for call_k in calls]
+    with NoTracing():
+        p = Parent()
+        ci = ClauseIndex(p, arity)
+        clauses = []
+        for n, args in enumerate(ckinds):
+            # a variable in a clause head is a non-ground argument (an int) for the index
+            p.nodes[10 + n] = Node([a if a is not None else -1 for a in args])
+            ci.append(10 + n)
+            clauses.append((10 + n, args))
+        for call in ccalls:
+            real = list(ci.find([c if c is not None else -5 for c in call]))
+            if real != expected(clauses, call):
+                return False
     return True
 '''
 
 
 def harness(idx, nclauses, arity, ncalls, prefix=()):
-    """prefix: concrete kinds of the leading selectors (splits the selector space of a condition: at most 4 stay symbolic)"""
+    """prefix: concrete kinds of the leading selectors (splits the selector space of a condition: at most 7 stay symbolic)"""
     names = []
     kinds = []
     pre_vals = list(prefix)
@@ -172,7 +188,7 @@ def variant_harness(idx, shapes1, shapes2):
     n2 = sum(NVARS[x] for x in shapes2)
     names = ["a%d" % i for i in range(n1)] + ["b%d" % i for i in range(n2)]
     sig = ", ".join("%s: int" % n for n in names)
-    hi = 2 if len(names) <= 3 else 1        # 3 identities up to 3 variable slots (27 paths), 2 beyond
+    hi = 2                                  # 3 variable identities
     pre = " and ".join("0 <= %s <= %d" % (n, hi) for n in names) or "True"
     body = "    return variant_ok(%r, [%s], %r, [%s])" % (list(shapes1), ", ".join(names[:n1]), list(shapes2), ", ".join(names[n1:]))
     name = "h_var_%d" % idx
@@ -184,8 +200,8 @@ def variant_harnesses(tier, seed):
     rng = random.Random("c13/%s" % seed)
     sh = list(itertools.product(range(6), repeat=2))
     with_vars = [x for x in sh if sum(NVARS[y] for y in x) >= 1]
-    pairs = [(x, x) for x in with_vars if sum(NVARS[y] for y in x) <= 3]
-    others = [(x, y) for x in with_vars for y in with_vars if x != y and sum(NVARS[z] for z in x + y) <= 4]
+    pairs = [(x, x) for x in with_vars]
+    others = [(x, y) for x in with_vars for y in with_vars if x != y and sum(NVARS[z] for z in x + y) <= 6]
     rng.shuffle(others)
     pairs += others[: (12 if tier == "quick" else 400)]
     return [variant_harness(i, a, b) for i, (a, b) in enumerate(pairs)]
@@ -201,21 +217,22 @@ def main(tier, seed):
               "with SYMBOLIC variable identities: it must answer 'present' exactly when the two goals are variants (equal up to a "
               "consistent renaming of variables), for the table of completed goals and for the table of active goals")
     run.functions = FUNCS
-    run.assumptions = ["whole-program agreement with SWI/Yap on arbitrary pure Prolog is NOT claimed (no Prolog system in the sandbox and "
+    run.assumptions = ["the selectors are the only symbolic values; once they are decided the real ClauseIndex / DefineCache code runs "
+                       "untraced (crosshair.tracers.NoTracing) on concrete arguments", "whole-program agreement with SWI/Yap on arbitrary pure Prolog is NOT claimed (no Prolog system in the sandbox and "
                        "no symbolic dimension for a deterministic program); the clause-selection-order mechanism is what is decided here",
                        "findall order / duplicates in probabilistic programs: see C19 (two known findings shared with this property)",
                        "argument kinds concretised per path by an if-chain over a symbolic selector"]
     hs = []
     i = 0
-    for ncl, ar, nq in ([(1, 1, 1), (2, 1, 1), (3, 1, 1), (3, 1, 2), (2, 2, 1)] +
-                        ([(3, 2, 1), (2, 2, 2), (4, 1, 2), (3, 2, 2), (4, 2, 1)] if tier == "thorough" else [])):
+    for ncl, ar, nq in ([(1, 1, 1), (2, 1, 1), (3, 1, 1), (3, 1, 2), (2, 2, 1), (3, 2, 1), (2, 2, 2), (4, 1, 2)] +
+                        ([(3, 2, 2), (4, 2, 1), (4, 2, 2), (5, 1, 2)] if tier == "thorough" else [])):
         nsel = ncl * ar + nq * ar
-        for prefix in itertools.product(range(3), repeat=max(0, nsel - 4)):
+        for prefix in itertools.product(range(3), repeat=max(0, nsel - 7)):
             i += 1
             hs.append(harness(i, ncl, ar, nq, prefix))
     nfind = len(hs)
     hs += variant_harnesses(tier, seed)
-    timeout = 60 if tier == "quick" else 600
+    timeout = 150 if tier == "quick" else 900
     st = Stats()
     res, cpu = xh.run(hs, PREAMBLE, per_condition_timeout=timeout, per_module=1)
     byname = dict((h.name, h) for h in hs)
@@ -268,7 +285,7 @@ def main(tier, seed):
     run.merge(st)
     run.bounds = {"crosshair_conditions": len(hs), "clause_index_conditions": nfind, "variant_conditions": len(hs) - nfind,
                   "max_clauses": 4, "max_arity": 2, "variable_ids": 3, "per_condition_timeout_s": timeout}
-    run.extra["rule"] = "one obligation per (number of clauses, arity, number of calls, concrete prefix of argument kinds) configuration; the last four argument kinds are symbolic"
+    run.extra["rule"] = "one obligation per (number of clauses, arity, number of calls, concrete prefix of argument kinds) configuration; the last seven argument kinds are symbolic"
     return run.finish()
 
 
